@@ -287,7 +287,7 @@ func processSegments(in io.Reader, out *io.PipeWriter, processFn processSegmentF
 
 		// Ignore EOF errors, which mean that the input stream is done
 		// We will still need to continue processing whatever data we have
-		if err != nil && !errors.Is(err, io.EOF) {
+		if err != nil && err != io.EOF { //nolint:errorlint
 			// In case of any other error, close the out stream with the error
 			_ = out.CloseWithError(err)
 			return
